@@ -278,6 +278,46 @@ func init() {
 		in.call(caller, token.NoPos, a[0], nil)
 		return in.tt.True
 	}
+	// SharedWrites(f, g, label): f and g are bodies of two activities that may run
+	// concurrently. Both are executed (one after the other) while every write to a
+	// memory cell is recorded with the locks held; a cell written by both without a
+	// common lock is shared mutable state without synchronisation: violation
+	// "lockset:<label>" (confirmed natively by the entry's "...Race" witness).
+	intrinsics[rtPkg+"SharedWrites"] = func(in *Interp, caller *frame, _ *ssa.Function, a []Value) Value {
+		label := in.argStr(a[2])
+		run := func(f Value) map[*Value][]*Value {
+			in.recording = map[*Value][]*Value{}
+			defer func() { in.recording = nil }()
+			in.call(caller, token.NoPos, f, nil)
+			return in.recording
+		}
+		wa := run(a[0])
+		wb := run(a[1])
+		shared := 0
+		for cell, la := range wa {
+			lb, both := wb[cell]
+			if !both {
+				continue
+			}
+			common := false
+			for _, x := range la {
+				for _, y := range lb {
+					if x == y {
+						common = true
+					}
+				}
+			}
+			if !common {
+				shared++
+			}
+		}
+		if shared > 0 {
+			in.res.addViolation(in, "lockset:"+label, fmt.Sprintf("%d memory cell(s) written by both activities without a common lock", shared), in.modelFor(nil))
+			return in.tt.True
+		}
+		in.res.AssertsConc++
+		return in.tt.False
+	}
 	intrinsics[rtPkg+"Join"] = func(in *Interp, _ *frame, _ *ssa.Function, a []Value) Value { return nil }
 	intrinsics[rtPkg+"PanicMsg"] = func(in *Interp, _ *frame, _ *ssa.Function, a []Value) Value {
 		if s, ok := in.scratch["lastPanic"].(string); ok {
@@ -562,7 +602,22 @@ func init() {
 		r := in.sprintf(caller, strings.TrimSpace(strings.Repeat("%v ", sl.Len)), sl)
 		return in.binop(token.ADD, types.Typ[types.String], r, "\n", nil)
 	}
-	for _, n := range []string{"fmt.Printf", "fmt.Println", "fmt.Print", "fmt.Fprintf", "fmt.Fprintln", "fmt.Fprint"} {
+	// Fprintf into a writer of the program (e.g. a bytes.Buffer): format, then call its Write
+	intrinsics["fmt.Fprintf"] = func(in *Interp, caller *frame, fn *ssa.Function, a []Value) Value {
+		w, _ := a[0].(Iface)
+		if _, isD := w.V.(Dummy); isD || w.T == nil {
+			return in.blackholeResult(fn.Signature)
+		}
+		wm := in.findMethod(w.T, "Write")
+		if wm == nil {
+			return in.blackholeResult(fn.Signature)
+		}
+		s := in.sprintf(caller, in.argStr(a[1]), a[2].(Slice))
+		bs := in.bytesToSlice(in.strTerms(s))
+		r := in.call(caller, token.NoPos, wm, []Value{w.V, bs})
+		return r
+	}
+	for _, n := range []string{"fmt.Printf", "fmt.Println", "fmt.Print", "fmt.Fprintln", "fmt.Fprint"} {
 		name := n
 		intrinsics[name] = func(in *Interp, _ *frame, fn *ssa.Function, a []Value) Value {
 			in.res.Stubs[name]++
